@@ -102,7 +102,7 @@ def lex_text(rs, cfg, rng, vary=True):
             t = ('{ fv_cur_prefix = fv_more_set ? fv_last_leng : 0; fv_more_set = 0; fv_last_leng = (long) yyleng; '
                  'fv_log_match(%d, yytext, (long) yyleng, FV_LINENO_EXPR, yystart(), fv_bol_needed ? (int) yyatbol() : -1); '
                  'for (;;) { long a_ = 0, b_ = 0; int op_ = fv_next_op(&a_, &b_); if (op_ == FV_OP_END) break; '
-                 'if (op_ == FV_OP_LESS) { int n_ = (int) (fv_cur_prefix + a_ %% ((long) yyleng - fv_cur_prefix + 1)); '
+                 'if (op_ == FV_OP_LESS || op_ == FV_OP_LESS3) { int n_ = (int) (fv_cur_prefix + a_ %% ((long) yyleng - fv_cur_prefix + 1)); '
                  'yyless(n_); fv_last_leng = (long) yyleng; fv_log_text("less", yytext, (long) yyleng); continue; } '
                  'if (op_ == FV_OP_UNPUT) { char ch_ = (char) a_; yyunput(ch_); continue; } '
                  'if (op_ == FV_OP_INPUT) { int c_ = yyinput(); fv_log_int("in", c_); continue; } '
@@ -141,8 +141,11 @@ def build_scanner(flex, flexsrc, workdir, name, rs, cfg, lex_seed=0, flex_timeou
     cf = os.path.join(workdir, name + ('.cc' if cfg.backend == 'cxx' else '.c'))
     exe = os.path.join(workdir, name + '.exe')
     text = lex_text(rs, cfg, rng)
-    open(lf, 'w', encoding='latin1').write(text)
-    opts = list(cfg.topt) + ['-8' if rs.csize == 256 else '-7']
+    if random.Random(lex_seed ^ 0xc41f).random() < float(os.environ.get('FV_CRLF_P', '0.06')):
+        text = text.replace('\n', '\r\n')          # a rule file with CR-LF line ends
+    open(lf, 'w', encoding='latin1', newline='').write(text)
+    from . import tv as _tv
+    opts = _tv.opts_for(rs, cfg.topt, lex_seed)
     tpath = None
     if cfg.tables:
         tpath = os.path.join(workdir, name + '.tables')
